@@ -270,7 +270,14 @@ func sliceConcSrv(c *Ctx, kind string) {
 			theEnv = nil
 			continue
 		}
-		cases = append(cases, "[\n     "+strings.Join(w.evs, ";\n     ")+"]")
+		// the model replays the history inside coqc; a history whose events exceed 4 MB of Gallina text (many clients, keys and
+		// large batches: every sync carries the whole backlog) costs minutes and gigabytes there.  Such a history is still
+		// judged by the Go oracles above; it is counted and left out of the case file.
+		if evs := strings.Join(w.evs, ";\n     "); len(evs) > 4<<20 {
+			c.Count("history-too-large-for-model-replay")
+		} else {
+			cases = append(cases, "[\n     "+evs+"]")
+		}
 		c.Distinct(strings.Join(w.desc, "|"), w.nontriv)
 		c.Sample(map[string]interface{}{"kind": kind, "script": w.desc})
 	}
